@@ -159,6 +159,8 @@ func init() {
 	externals["internal/stringslite.HasPrefix"] = externals["strings.HasPrefix"]
 	externals["internal/stringslite.HasSuffix"] = externals["strings.HasSuffix"]
 	externals["internal/stringslite.Index"] = externals["strings.Index"]
+	externals["internal/stringslite.Clone"] = func(fr *frame, args []value) value { return args[0] }
+	externals["strings.Clone"] = externals["internal/stringslite.Clone"]
 	externals["internal/stringslite.IndexByte"] = externals[p+"IndexByte"]
 	// strings.Builder: grows a cell buffer kept in a side table (its String() uses unsafe)
 	externals["(*strings.Builder).String"] = func(fr *frame, args []value) value {
